@@ -46,9 +46,9 @@ HARNESSES = [
       witness_every=20, bounds="every operation once; state compared with the executable reference of the documented semantics "
                                "(vlib/refmodel.py) where one exists (bounds, stoichiometry edits, *=, +=, -=, rules, add/remove "
                                "reactions and metabolites, remove/rename genes, renames); R1 with symbolic coefficients and bounds"),
-    H("c02_ref_k2", c02_ref_k2, quick=dict(max_paths=120000, time_budget=100), thorough=dict(max_paths=2000000, time_budget=700),
+    H("c02_ref_k2", c02_ref_k2, quick=dict(max_paths=120000, time_budget=100), thorough=dict(max_paths=2000000, time_budget=400),
       witness_every=150, bounds="all pairs from the sub-alphabet + remove_genes, rule, remove_metabolites, -=, add_metabolites(model), "
                                 "metabolite rename + enter/exit (the reference is restored at exit as C03 demands)"),
-    H("c02_inv_k2", c02_inv_k2, tiers=("thorough",), thorough=dict(max_paths=2000000, time_budget=600),
+    H("c02_inv_k2", c02_inv_k2, tiers=("thorough",), thorough=dict(max_paths=2000000, time_budget=300),
       witness_every=100, bounds="all pairs from the sub-alphabet + remove_genes, rule, remove_metabolites + enter/exit"),
 ]
